@@ -123,7 +123,7 @@ PROPS = {
         theorems=['C09_unchanged_at_target', 'C09_increase_exact', 'C09_decrease_exact', 'C09_increase_strict',
                   'C09_decrease_le', 'C09_ge_floor_min', 'C09_total_no_divzero', 'C09_total', 'C09_keeper_exact',
                   'C09_zero_target_keeps', 'C09_admission', 'C09_admission_implies_precheck',
-                  'fact_elasticity', 'fact_changeDenom', 'fact_london_always', 'fact_feemarket_endblock_last', 'fact_feemarket_after_gov', 'fact_maxgas_guard'],
+                  'fact_elasticity', 'fact_changeDenom', 'fact_london_always', 'fact_feemarket_endblock_last', 'fact_feemarket_after_gov', 'fact_maxgas_guard', 'fact_basefee_guards'],
         engines=[dict(name='feemarket', test='TestEngineFeemarket', quick=20000, thorough=400000, thorough_seeds=3, functional=True),
                  dict(name='block', test='TestEngineBlock', quick=500, thorough=6000, thorough_seeds=2)],
         rule='tuples (baseFee, MaxGas|nil, gasConsumed, minGasPrice mantissa) drawn from edge classes (0,1,2^63,2^256-1, around target/limit, MaxGas in {-1,0,1,2,3,..}) and uniform bit-lengths; non-trivial = baseFee>0 and gasConsumed>0; distinct by op line hash',
@@ -221,12 +221,12 @@ PROPS['C19'] = dict(
 )
 
 PROPS['C20'] = dict(
-    lean_modules=['Model.EventSys', 'Model.Block', 'Model.FeeMarket', 'Properties.C06', 'Properties.C09', 'Properties.C13', 'Properties.C20', 'Properties.C20Conc', 'Facts.EventSys'],
+    lean_modules=['Model.EventSys', 'Model.Block', 'Model.FeeMarket', 'Properties.C06', 'Properties.C09', 'Properties.C13', 'Properties.C20', 'Properties.C20Conc', 'Facts.EventSys', 'Facts.C09', 'Facts.Panics'],
     facts=['*'],
     theorems=['C20_rejected_is_noop', 'C20_dropped_is_noop', 'C20_isolation', 'C20_isolation_replace', 'runItems_append',
               'C09_total', 'C09_total_no_divzero', 'C09_zero_target_keeps', 'C13_endBlock_total', 'C13_inv_block',
               'C20_no_send_on_closed', 'inv_step', 'inv_run', 'C20_original_crashes', 'C20_original_drops', 'C20_lock_needed', 'C20_index_needed',
-              'fact_consume_locks_across_send', 'fact_install_shape', 'fact_uninstall_shape', 'fact_join_indexes'],
+              'fact_basefee_guards', 'fact_maxgas_guard', 'fact_block_panic_sites', 'fact_consume_locks_across_send', 'fact_install_shape', 'fact_uninstall_shape', 'fact_join_indexes'],
     engines=[dict(name='crash', test='TestEngineCrash', quick=250, thorough=6000, thorough_seeds=3, no_model=True),
              dict(name='conc', test='TestEngineConc', quick=3, thorough=25, thorough_seeds=2, no_model=True, race_in_thorough=True)],
     rule='E-crash: batches of 1-4 hostile transactions (16 classes: garbage / empty embedded Ethereum payloads, extreme numeric fields, every custom-precompile selector with random / truncated / saturated / far-offset calldata directly and through CALL / STATICCALL / DELEGATECALL / CALLCODE, mixed lanes, nested authz, bad addresses and coins, adversarial module messages, Ethereum message in the Cosmos lane, mutated valid bytes, random bytes, random init code with large access lists, foreign chain ids, value into module / precompile addresses, wrong declared sender) through CheckTx (new, recheck), PrepareProposal, ProcessProposal, FinalizeBlock + Commit with a recover sentinel outside BaseApp; gRPC queries (15 paths, adversarial and random request bytes, heights incl. negative and future); consensus-parameter sweeps (MaxGas -1,0,1,2,20999,21000,21001,1e6 x MaxBytes 1,200,default,-1) with blocks of valid transactions; a liveness block after every fifth batch and every sweep; isolation on two fresh instances of the application (same genesis, block 1 with one position holding two different failing transactions that leave no event). E-conc: the real EventSystem + memEventBus over the real CometBFT WSClient against an in-process websocket endpoint, in child processes: the two schedules of the protocol model forced through the verif schedule points, and 6-goroutine subscribe / unsubscribe stress with events for known and unknown queries (thorough: under the race detector). Non-trivial = every crash / conc line; distinct by op-line hash',
